@@ -11,6 +11,7 @@
 -/
 import JoinModel.Async
 import JoinModel.Spec
+import JoinModel.Lemmas.SpecFacts
 namespace JoinModel
 
 /-- cut an event list into segments: `(n, g)` = after `n` more events there is a pending point on gate `g` -/
@@ -349,5 +350,101 @@ theorem planRun_canon (c : SpecCfg) (pend : Pend) (pendH : PendH) (h : Option HK
     (planRun c pend pendH h).1 ++ (planRun c pend pendH h).2.canon.1 = (specRunCfg c h).trace ∧
     (planRun c pend pendH h).2.canon.2 = (specRunCfg c h).res :=
   planRun_canon_gen c pend pendH h _ (planLoop_canon c pend hth htry (c.maxDepth - 1) 0 (List.replicate c.n none))
+
+/-! ### the step loop as a leveled plan: the barrier under every schedule -/
+
+/-- the events of the chains of step `k` carry step number `k` -/
+theorem taskOf_step (c : SpecCfg) (pend : Pend) (k : Nat) (vals : List (Option Value)) (vis : List (String × Value))
+    (bc : Nat × List Value) : ∀ e ∈ (taskOf c pend k vals vis bc).allEvs, e.step = some k := by
+  intro e he
+  rw [taskOf_allEvs] at he
+  obtain ⟨ev, hev, rfl⟩ := List.mem_map.mp he
+  simp only [chainEvents, List.mem_append, List.mem_singleton, List.mem_map] at hev
+  rcases hev with (rfl | ⟨i, _, rfl⟩) | hev
+  · rfl
+  · rfl
+  · split at hev
+    · simp only [List.mem_singleton] at hev; subst hev; rfl
+    · cases hev
+
+/-- level of an event: its step number -/
+def stepLevel (e : MEv) : Nat := e.step.getD 0
+
+/-- finer level: the block captures of step `k` (`2k`) come before its chains (`2k + 1`) — `MEv.key` -/
+def keyLevel (e : MEv) : Nat := e.step.getD 0 * 2 + (if e.isCap then 0 else 1)
+
+theorem taskOf_notCap (c : SpecCfg) (pend : Pend) (k : Nat) (vals : List (Option Value)) (vis : List (String × Value))
+    (bc : Nat × List Value) : ∀ e ∈ (taskOf c pend k vals vis bc).allEvs, e.isCap = false := by
+  intro e he
+  rw [taskOf_allEvs] at he
+  obtain ⟨ev, hev, rfl⟩ := List.mem_map.mp he
+  simp only [chainEvents, List.mem_append, List.mem_singleton, List.mem_map] at hev
+  rcases hev with (rfl | ⟨i, _, rfl⟩) | hev
+  · rfl
+  · rfl
+  · split at hev
+    · simp only [List.mem_singleton] at hev; subst hev; rfl
+    · cases hev
+
+/-- The plan of the step loop from step `k` on is leveled — by step number (chains of step `k` at `k`, the captures on
+    entering step `k + 1` at `k + 1`) and by the finer key (chains of step `k` at `2k + 1`, the captures of step `k + 1`
+    at `2k + 2`, its chains at `2k + 3`) — and every event carries a step number. -/
+theorem planLoop_leveled (c : SpecCfg) (pend : Pend) : ∀ (rem k : Nat) (vals : List (Option Value)),
+    (∀ e ∈ (planLoop c pend rem k vals).1, e.step = some k ∧ e.isCap = true) ∧
+    (planLoop c pend rem k vals).2.Leveled stepLevel k ∧
+    (planLoop c pend rem k vals).2.Leveled keyLevel (2 * k + 1) ∧
+    (planLoop c pend rem k vals).2.EvAll (fun e => e.step.isSome = true) := by
+  intro rem
+  induction rem with
+  | zero =>
+    intro k vals
+    unfold planLoop
+    simp only
+    have hcap := specCapsAll_step c k (visibleSpec c.names vals) (c.active k)
+    split
+    · exact ⟨hcap, .done _ _, .done _ _, .done _⟩
+    · exact ⟨hcap, .done _ _, .done _ _, .done _⟩
+    · refine ⟨hcap, ?_, ?_, ?_⟩
+      · refine .step k k k (Nat.le_refl _) (Nat.le_refl _) _ _ _ _ _ ?_ (fun _ e he => by cases he) (fun _ => .done _ _)
+        intro t ht e he
+        obtain ⟨bc, _, rfl⟩ := List.mem_map.mp ht
+        simp [stepLevel, taskOf_step c pend k vals _ bc e he]
+      · refine .step _ (2 * k + 1) (2 * k + 1) (Nat.le_refl _) (Nat.le_refl _) _ _ _ _ _ ?_ (fun _ e he => by cases he)
+          (fun _ => .done _ _)
+        intro t ht e he
+        obtain ⟨bc, _, rfl⟩ := List.mem_map.mp ht
+        simp [keyLevel, taskOf_step c pend k vals _ bc e he, taskOf_notCap c pend k vals _ bc e he]; omega
+      · refine .step _ _ _ _ _ ?_ (fun _ e he => by cases he) (fun _ => .done _)
+        intro t ht e he
+        obtain ⟨bc, _, rfl⟩ := List.mem_map.mp ht
+        simp [taskOf_step c pend k vals _ bc e he]
+  | succ rem ih =>
+    intro k vals
+    unfold planLoop
+    simp only
+    have hcap := specCapsAll_step c k (visibleSpec c.names vals) (c.active k)
+    split
+    · exact ⟨hcap, .done _ _, .done _ _, .done _⟩
+    · exact ⟨hcap, .done _ _, .done _ _, .done _⟩
+    · refine ⟨hcap, ?_, ?_, ?_⟩
+      · refine .step k (k + 1) (k + 1) (by omega) (Nat.le_refl _) _ _ _ _ _ ?_ ?_ (fun outs => (ih (k + 1) _).2.1)
+        · intro t ht e he
+          obtain ⟨bc, _, rfl⟩ := List.mem_map.mp ht
+          simp [stepLevel, taskOf_step c pend k vals _ bc e he]
+        · intro outs e he
+          simp [stepLevel, ((ih (k + 1) _).1 e he).1]
+      · refine .step _ (2 * k + 2) (2 * (k + 1) + 1) (by omega) (by omega) _ _ _ _ _ ?_ ?_ (fun outs => (ih (k + 1) _).2.2.1)
+        · intro t ht e he
+          obtain ⟨bc, _, rfl⟩ := List.mem_map.mp ht
+          simp [keyLevel, taskOf_step c pend k vals _ bc e he, taskOf_notCap c pend k vals _ bc e he]; omega
+        · intro outs e he
+          obtain ⟨h1, h2⟩ := (ih (k + 1) _).1 e he
+          simp [keyLevel, h1, h2]; omega
+      · refine .step _ _ _ _ _ ?_ ?_ (fun outs => (ih (k + 1) _).2.2.2)
+        · intro t ht e he
+          obtain ⟨bc, _, rfl⟩ := List.mem_map.mp ht
+          simp [taskOf_step c pend k vals _ bc e he]
+        · intro outs e he
+          simp [((ih (k + 1) _).1 e he).1]
 
 end JoinModel
